@@ -104,8 +104,19 @@ impl Write for Sink {
         }
         Ok(n)
     }
+    /// A sink with a write_vectored of its own (files, sockets): takes a prefix of the concatenation of the slices,
+    /// according to the same schedule as `write`.
+    fn write_vectored(&mut self, bufs: &[io::IoSlice<'_>]) -> io::Result<usize> {
+        let all: Vec<u8> = bufs.iter().flat_map(|b| b.iter().copied()).collect();
+        self.write(&all)
+    }
+    /// Flushing is a call of the sink too: it is recorded (the writer under test does not flush its sink at present; one
+    /// that does must not do so between a failure and its report).
     fn flush(&mut self) -> io::Result<()> {
         self.state.borrow_mut().flush_calls += 1;
+        if self.log {
+            crate::trace::rec(json!({"ev":"sink","offered":0,"kind":"flush","n":0,"bytes":[]}));
+        }
         Ok(())
     }
 }
